@@ -345,10 +345,28 @@ def local_policy(F, root, events=(), keep=(), also_inline=(), public_events=Fals
         f = F.fns.get(p)
         return bool(f) and f.get('vis') == 'Public' and f.get('kind') in ('Fn', 'AssocFn')
 
+    def small_foreign(p):
+        """a crate-internal (not `pub`) function of another file that is a small read-only helper - a predicate, an
+        accessor, a lookup: looked through like a same-file helper, wherever a maintainer put it"""
+        h = F.hir.get(p)
+        f = F.fns.get(p)
+        if h is None or f is None or f.get('vis') == 'Public' or '{closure' in p:
+            return False
+        if file_of(F, p) == rf or typed_step(p) or branch_count(F, p) > 3:
+            return False
+        # only predicates and id lookups: what they return is a fact about their arguments, not a new object
+        m = F.mir.get(p)
+        rty = (m['locals'][0].get('ty') or '') if m and m.get('locals') else ''
+        if not (rty == 'bool' or re.match(r'^(std::option::Option<)?(&)?id_arena::Id<[^<>]+>>?$', rty)):
+            return False
+        return not any('&mut' in (prm.get('ty') or '') or "mut " in (prm.get('ty') or '')[:12] for prm in h.get('params', []))
+
     def is_event(p):
         if any(r.search(p) for r in ev):
             return True
         p = canon_path(p)
+        if small_foreign(p):
+            return False
         # with public_events, the crate's public API (and everything outside the crate except std) is the
         # vocabulary of the trace; private / pub(crate) helpers are looked through
         if public_events and p != root:
@@ -366,6 +384,8 @@ def local_policy(F, root, events=(), keep=(), also_inline=(), public_events=Fals
             return False
         p = canon_path(p)
         if any(r.search(p) for r in ai):
+            return True
+        if small_foreign(p):
             return True
         if not (p in F.hir and file_of(F, p) == rf):
             return False
